@@ -175,6 +175,28 @@ def h_full_state(sym):
           7, 0, '<BhhhhhhhhhIhhh', vals)
 
 
+FS_POOL = [0.0, 0.0015, -0.9999, 32.767, 32.7675, 32.768, -32.768, -32.7685, -32.769, 40.0, -65.536, 65.535, float('nan'), float('inf')]
+
+
+def h_full_state_values(sym):
+    """All twelve fixed-point fields at once, each solver-chosen from a pool of boundary values (concrete after the fork, so the
+    conversion code may be anything, numpy included): in range -> trunc(arg*1000) as int16; otherwise refused, nothing sent."""
+    n = sym.B.get('fields', 12)
+    args = [0.101, -0.202, 0.303, 1.404, -1.505, 1.606, -2.707, 2.808, -2.909, 3.010, -3.111, 3.212]
+    for k in range(n):
+        i = sym.B['which'][k]
+        args[i] = FS_POOL[sym.choice(f'v{i}', len(FS_POOL))]
+    pos, vel, acc, rates = args[0:3], args[3:6], args[6:9], args[9:12]
+    cf = mkcf(10)
+    bad = any(x != x or x in (float('inf'), float('-inf')) or not -32768 <= int(x * 1000) <= 32767 for x in args)
+    exp = [0 if bad else int(x * 1000) for x in args]
+    from cflib.utils.encoding import compress_quaternion
+    comp = compress_quaternion([0, 0, 0, 1])
+    vals = (6, exp[0], exp[1], exp[2], exp[3], exp[4], exp[5], exp[6], exp[7], exp[8], comp, exp[9], exp[10], exp[11])
+    check(sym, cf, lambda: cf.commander.send_full_state_setpoint(pos, vel, acc, [0, 0, 0, 1], rates[0], rates[1], rates[2]),
+          7, 0, '<BhhhhhhhhhIhhh', vals, refuse=bad)
+
+
 def _ref_compress(q):
     """Firmware quatcompress(): normalise, index of the largest |component| (first one wins ties), sign of every other
     component relative to the largest (so that the dropped one is reconstructed as positive), 9-bit magnitudes."""
@@ -451,6 +473,10 @@ _H = [
              tiers=('quick', 'thorough') if i in (0, 4, 8, 11) else ('thorough',)) for i in range(12)] + [
     Harness(f'hl_{k}', h_hl_small, quick=dict(which=k), goals=('sent', 'refused')) for k in ('group_mask', 'stop', 'define', 'start')
 ] + [
+    Harness('full_state[values]', h_full_state_values, quick=dict(fields=2, which=(0, 11)), thorough=dict(fields=3, which=(2, 4, 9)),
+            goals=('sent', 'refused'), symbolic=False,
+            note='boundary values (+-32.767/32.768, just beyond, far beyond, NaN, inf) chosen by the solver per field; no symbolic '
+                 'float reaches the code'),
     Harness('full_state[quaternion]', h_full_state_quat, goals=('sent',), symbolic=False,
             note='quaternion chosen by the solver among concrete ones (numpy code); reference: independent port of quatcompress'),
 ] + [Harness(f'two_sessions[{k}]', h_two_sessions, quick=dict(which=k), goals=('sent', 'crossed-switch'), timeout=(600, 1800), per_path=300.0)
